@@ -209,6 +209,7 @@ impl Scenario for Flow {
         let mut frame_pkts: Vec<(usize, usize, RxObs, bool, bool)> = vec![]; // .4 = label memories were re-synchronised after this packet // (offset, len, isolated observation, produced_by_sender_uncorrupted)
         let mut stream_no = 0u32;
         let mut merge = H64::new();
+        let mut merge_seq: Vec<u32> = vec![];
         let mut last_stream: Option<u32> = None;
         let mut switches = 0u32;
         let mut compared = 0u32;
@@ -268,6 +269,12 @@ impl Scenario for Flow {
                 if let (Some(fi), true) = (fl, clean) {
                     let (tainted, must_reject) = (flights[fi].tainted, flights[fi].must_reject);
                     let (kind, lt, _) = hdr.unwrap();
+                    // C10: the encapsulator never emits a packet that reads as padding
+                    if pkt[0] >> 4 == 0 {
+                        if ex.report(Violation::new("C10", "C10.emitted_packet_reads_as_padding", kind.name(), format!("first byte {:02x}", pkt[0]))) {
+                            stop!();
+                        }
+                    }
                     // ---- C19
                     if let Ok(pkr) = &pk {
                         let want: Result<LabelorFragId, GetLabelorFragIdError> = match kind {
@@ -326,6 +333,9 @@ impl Scenario for Flow {
                                 // which property is this? round trip failure: C01/C02/C13; with several flights C07; C04 delivery clause
                                 let mut vs = vec![Violation::new(prop_rt, if prop_rt == "C01" { "C01.not_delivered" } else if prop_rt == "C02" { "C02.not_delivered" } else { "C13.not_delivered" }, format!("{}:{}{}", site_k, obs.class, if obs.err.is_empty() { String::new() } else { format!(":{}", obs.err) }), format!("expected {} got {} {} (pdu {}, pkt {} bytes, free buffers before {})", want_class, obs.class, obs.err, f.pdu.len(), pkt.len(), free_before))];
                                 vs.push(Violation::new("C04", "C04.not_delivered", format!("{}:{}:{}", site_k, obs.class, obs.err), format!("PDU with label {:?} not delivered: {} {}", f.intended.map(|l| l.short()), obs.class, obs.err)));
+                                if obs.err == "Crc" && kind == Kind::End {
+                                    vs.push(Violation::new("C12", "C12.receiver_recomputes_another_crc", format!("label_written{}:{}", f.written_label.len(), if f.has_ext { "ext" } else { "noext" }), format!("fault-free train rejected with ErrorCrc: the decapsulator recomputes a CRC different from the trailer (first fragment label type {}, {} label bytes written)", if f.written_label.is_empty() { "re-use/broadcast" } else { "3/6-byte" }, f.written_label.len())));
+                                }
                                 vs.push(Violation::new("C07", "C07.not_delivered", format!("{}:{}:{}", site_k, obs.class, obs.err), format!("stream {} fid {}: expected {} got {} {}", f.stream_no, f.fid, want_class, obs.class, obs.err)));
                                 let mut stopnow = false;
                                 for v in vs {
@@ -656,6 +666,7 @@ impl Scenario for Flow {
                     flights.push(fl);
                     let fi = flights.len() - 1;
                     merge.u(stream_no as u64);
+                    merge_seq.push(stream_no);
                     if last_stream.is_some() && last_stream != Some(stream_no) {
                         switches += 1;
                     }
@@ -743,6 +754,7 @@ impl Scenario for Flow {
                     }
                     let sn = flights[fi].stream_no;
                     merge.u(sn as u64);
+                    merge_seq.push(sn);
                     if last_stream.is_some() && last_stream != Some(sn) {
                         switches += 1;
                     }
@@ -960,6 +972,28 @@ impl Scenario for Flow {
             let _ = nops;
         }
         ex.st.cov("merge", merge.0);
+        if target == "C07" && merge_seq.len() <= 6 {
+            // canonical merge words of the small shapes (streams numbered by first appearance): 3+10+10+15 = 38
+            let mut ids: Vec<u32> = vec![];
+            let mut word: Vec<u8> = vec![];
+            for s in &merge_seq {
+                let ix = match ids.iter().position(|x| x == s) {
+                    Some(i) => i,
+                    None => {
+                        ids.push(*s);
+                        ids.len() - 1
+                    }
+                };
+                word.push(ix as u8);
+            }
+            let mut counts: Vec<usize> = (0..ids.len()).map(|i| word.iter().filter(|w| **w as usize == i).count()).collect();
+            counts.sort();
+            if matches!(counts.as_slice(), [2, 2] | [2, 3] | [3, 3] | [2, 2, 2]) && flights.is_empty() {
+                let mut h = H64::new();
+                h.b(&word);
+                ex.st.cov("merge_small_shapes_canonical_of_38", h.0);
+            }
+        }
         if keep_crc {
             for r in txlog.borrow().reach.iter().chain(rx.crc.borrow().reach.iter()) {
                 ex.st.cov("crc_table_index_x_position_class", *r as u64);
@@ -1141,7 +1175,15 @@ pub mod gen {
         let _ = tier;
         match target {
             "C01" => gen_c01(rng),
-            "C02" | "C11" | "C12" | "C18" => gen_c02(rng, target),
+            "C12" => {
+                // extension-bearing fragmented PDUs (label possibly substituted) take another CRC call site
+                if rng.chance(1, 3) {
+                    gen_c13(rng)
+                } else {
+                    gen_c02(rng, target)
+                }
+            }
+            "C02" | "C11" | "C18" => gen_c02(rng, target),
             "C04" | "C15" => gen_c04(rng, target == "C15"),
             "C07" => gen_c07(rng, idx),
             "C10" | "C19" => gen_c10(rng),
